@@ -6,6 +6,7 @@
 package mqtt
 
 import (
+	"bytes"
 	"errors"
 	"fmt"
 	"math"
@@ -1813,6 +1814,10 @@ func (s *Server) clearExpiredRetainedMessages(now int64) {
 
 		if expired || enforced {
 			verifAt("retained.expiring", nil)
+			if cur, ok := s.Topics.Retained.Get(filter); !ok || cur.Created != pk.Created || !bytes.Equal(cur.Payload, pk.Payload) {
+				continue // the topic has a newer retained message than the one found expired
+			}
+
 			s.Topics.Retained.Delete(filter)
 			s.hooks.OnRetainedExpired(filter)
 		}
